@@ -10,8 +10,11 @@ Open Scope Qc_scope.
 Inductive case :=
 | CReduce (vt : vartype) (raw items reduced : hpoly) (cons : list cons3)
           (assigns : list (list (label * Qc)))
-| CMq (vt : vartype) (raw items : hpoly) (s : Qc) (cons : list cons4) (n : nat) (bqm : obs)
-| CCqm (vt : vartype) (raw items : hpoly) (cons : list cons3) (n : nat) (obj : obs)
+(* base: the model passed as bqm= (its vartype, its coefficients before the call) *)
+| CMq (vt : vartype) (raw items : hpoly) (s : Qc) (cons : list cons4) (n : nat)
+      (base : option (vartype * obs)) (bqm : obs)
+(* base_obj: objective of the model passed as cqm= *)
+| CCqm (vt : vartype) (raw items : hpoly) (cons : list cons3) (n : nat) (base_obj : option obs) (obj : obs)
        (constraints : list (obs * bool * Qc))
 | CHoc (raw : hpoly) (cons : list cons3) (check_flags : bool) (vars : list label)
        (rows : list (list Qc * Qc * bool)).
@@ -35,20 +38,22 @@ Definition check (c : case) : bool :=
       && all_degree_le2 reduced && terms_nodup reduced
       && forallb (fun asg => let a := sample_of_list asg in
                     Qc_eqb (henergy reduced (extend cs a)) (henergy raw a)) assigns
-  | CMq vt raw items s cs n bqm =>
+  | CMq vt raw items s cs n base bqm =>
+      let bp := match base with Some (bvt, o) => Some (bvt, obs_poly o) | None => None end in
       let cons3s := map drop_aux cs in
       let red := reduce_with cons3s items in
       input_ok vt raw items && all_degree_le2 red
       && admissible items cons3s && (length cons3s <=? excess items)%nat
       && match vt with
-         | SPIN => valid_cons4 items cs && poly_coeff_eqb n (mq_spin s cs red) (obs_poly bqm)
-         | _ => valid_cons (hvars items) cons3s && poly_coeff_eqb n (mq_binary s cons3s red) (obs_poly bqm)
+         | SPIN => valid_cons4 items cs && poly_coeff_eqb n (with_base vt bp (mq_spin s cs red)) (obs_poly bqm)
+         | _ => valid_cons (hvars items) cons3s && poly_coeff_eqb n (with_base vt bp (mq_binary s cons3s red)) (obs_poly bqm)
          end
-  | CCqm vt raw items cs n obj constraints =>
+  | CCqm vt raw items cs n base_obj obj constraints =>
+      let bp := match base_obj with Some o => Some (vt, obs_poly o) | None => None end in
       let red := reduce_with cs items in
       input_ok vt raw items && valid_cons (hvars items) cs && all_degree_le2 red
       && admissible items cs && (length cs <=? excess items)%nat
-      && poly_coeff_eqb n (poly_of_hpoly red) (obs_poly obj)
+      && poly_coeff_eqb n (with_base vt bp (poly_of_hpoly red)) (obs_poly obj)
       && forallb2 (fun c o => let '(ob, is_eq, rhs) := o in
                      is_eq && Qc_eqb rhs 0 && poly_coeff_eqb n (product_constraint_poly c) (obs_poly ob))
            cs constraints
